@@ -437,11 +437,9 @@ def compare_model(drv, real: RealSeq, weights: dict, mask, rng, stats) -> list[F
             rerr = None
         except IndexError as ex:
             rn, rerr = None, f"IndexError: {ex}"
-        if (rerr is not None) != bool(info["raises"]):
-            fails.append(Fail("corr", "nested-verdict", f"all_local={al}: model raises={info['raises']} real {rerr!r}"))
-            continue
-        if rn is None:
-            stats["nested_raises"] += 1
+        if rerr is not None:
+            # the model's to_nested_dict is total (since the repair of F-C06-2); the monitor reports the raise
+            fails.append(Fail("corr", "nested-verdict", f"all_local={al}: the model yields a view, real raises {rerr!r}"))
             continue
         fails += cmp_nested(model_nested(info, padded, T, in_xy), rn, f"all_local={al}", stats)
         stats["nested"] += 1
@@ -1104,7 +1102,7 @@ def check(tier: str, seed: int) -> int:
             nanoseconds_compared_model_vs_impl=stats["ns"], nanoseconds_monitored=stats["mon_ns"],
             per_atom_samples_monitored=stats["atom_ns"], eom_idle_ns_monitored=stats["eom_idle_ns"],
             model_renders=stats["renders"], model_segments=stats["segments"],
-            nested_dicts_compared=stats["nested"], nested_dict_raises_agreed=stats["nested_raises"],
+            nested_dicts_compared=stats["nested"],
             extension_targets=dict(stats["ext_kind"]), inexact_sums=stats["inexact_sums"],
             rule="histories drawn exactly like the scheduler family (gen.gen_device x gen.HistoryGen, exact and "
                  "wrapping phase streams) run in lock step on the real Sequence and on the model, plus SLM-mask "
@@ -1154,7 +1152,7 @@ def replay(path: str) -> int:
         print(f"[{i}] {json.dumps(op)[:160]} -> {res.status[i] if i < len(res.status) else None}")
     print(f"channels={getattr(res, 'nchan', 0)} duration={getattr(res, 'duration', 0)} checkpoints={res.checkpoints} "
           f"mask={res.mask} model_renders={stats['renders']} ns_compared={stats['ns']} "
-          f"nested_compared={stats['nested']} nested_raises_agreed={stats['nested_raises']}")
+          f"nested_compared={stats['nested']}")
     if res.foreign:
         print(f"foreign divergence at step {res.foreign[0]} (owner {res.foreign[1]}): {res.foreign[2]}")
     bad = False
